@@ -32,6 +32,7 @@ StmtUses(s) ==
     [] s.k = "local" -> {s.n} \cup ExprNames(s.init)
     [] s.k = "ucall" -> ExprsNames(s.args, 1) \cup StmtsUses(s.body, 1)
     [] s.k = "return" -> IF s.has = 1 THEN ExprNames(s.e) ELSE {}
+    [] s.k = "always" -> ExprNames(s.e)
     [] s.k = "match" -> ExprNames(s.e) \cup StmtsUses(s.default, 1) \cup UNION {StmtsUses(s.cases[i].body, 1) : i \in 1..Len(s.cases)}
     [] s.k = "forchain" -> (IF s.mode = "bind" THEN {} ELSE {s.t.obj}) \cup ExprsNames(s.conds, 1) \cup ExprsNames(s.bes, 1) \cup (IF s.haselse = 1 THEN ExprNames(s.elseval) ELSE {})
     [] s.k = "if" -> (IF s.c.k \in {"true", "false"} THEN {} ELSE ExprNames(s.c)) \cup StmtsUses(s.th, 1) \cup StmtsUses(s.el, 1)
@@ -128,7 +129,9 @@ CondsOk(ss, i, objs, defined) ==
 TempsAccept(E) ==
   LET D == Summary(E)
       objs == DOMAIN D.kind
-      bad == {c \in 1..Len(E.ctxs) : ~TmpStmts(E.ctxs[c].body, 1, objs, {}, {}).ok \/ ~CondsOk(E.ctxs[c].body, 1, objs, {})}
+      \* a name bound with cohdl.always is concurrent logic, readable in every state like an object
+      alw(c) == LET bs == AlwaysBinds(E.ctxs[c].body, 1) IN {bs[i].n : i \in 1..Len(bs)}
+      bad == {c \in 1..Len(E.ctxs) : ~TmpStmts(E.ctxs[c].body, 1, objs \cup alw(c), {}, {}).ok \/ ~CondsOk(E.ctxs[c].body, 1, objs \cup alw(c), {})}
   IN IF bad = {} THEN "" ELSE "reject:intermediate value used where it is not defined on every path of the same state"
 
 AcceptVerdict(E) == LET d == DriversAccept(E) IN IF d # "" THEN d ELSE TempsAccept(E)
